@@ -94,7 +94,8 @@ def check(ctx, extra_random_steps=0):
     ctx.assumptions += ASSUMPTIONS
     ctx.build("engine")
     # action coverage (vacuity) on the one-step configuration, then the real bound without -coverage
-    ctx.tlc_mc("MC_EngineCore", "MC_EngineCore_cov.cfg", timeout=600)
+    ctx.tlc_actions("MC_EngineCore", "MC_EngineCore_cov.cfg",
+                    ["MarketItem", "Disconnects", "AccountItem", "TradingState", "Commands", "Shutdown"])
     ctx.tlc_mc("MC_EngineCore", "MC_EngineCore.cfg" if ctx.quick else "MC_EngineCore_thorough.cfg", timeout=3000, coverage=False)
     nb = 600 if ctx.quick else 8000
     p_b, scn_b = ctx.tlc_gen("Gen_EngineCore", "Gen_EngineCore.cfg", "behaviours.ndjson", simulate=(nb, 40), timeout=900)
